@@ -29,13 +29,16 @@ VARIABLES l,       \* index of the next event
           recs,    \* per step: closing level-2 record
           tvs,     \* per step: traded volume
           tmark,   \* length of the trade log when the current / last step began
+          sm,      \* simulations through bourse.step_sim.run: [on, ph (member expected next), pre (orders at
+                   \* update_begin), calls (submit events of the member being updated), agents, n_steps]
           bad
 
-tvars == <<l, cfg, nsteps, orders, trades, recs, tvs, tmark, bad>>
+tvars == <<l, cfg, nsteps, orders, trades, recs, tvs, tmark, sm, bad>>
+NoSim == [on |-> FALSE, ph |-> 0, pre |-> <<>>, calls |-> <<>>, agents |-> <<>>, n_steps |-> 0, inupd |-> FALSE]
 
 TInit ==
   /\ l = 1 /\ cfg = [op |-> "none"] /\ nsteps = 0 /\ orders = <<>> /\ trades = <<>>
-  /\ recs = <<>> /\ tvs = <<>> /\ tmark = 0 /\ bad = ""
+  /\ recs = <<>> /\ tvs = <<>> /\ tmark = 0 /\ sm = NoSim /\ bad = ""
 
 Decode(e) == [i \in 1..Len(e.orders) |-> FromPyOrder(e.orders[i])]
 DecodeT(e) == [i \in 1..Len(e.trades) |-> FromPyTrade(e.trades[i])]
@@ -126,16 +129,69 @@ StepClauses(e, c, os, ts, k) ==
           /\ no[t.agg + 1].side = Opp(no[t.pas + 1].side) /\ t.side = no[t.pas + 1].side>>,
      <<"ends_in_window", \A i \in 1..Len(os) : (os[i].status \notin Terminal /\ no[i].status \in Terminal) => no[i].end >= start>> >>
 
+\* ---- bourse.step_sim.run with RandomAgent members (py/pyrecord.py --mode sim) -----------------------
+\* The Python RandomAgent as a relation between what it could observe when update was called (the order
+\* table `pre`) and the instructions it submitted (`calls`): at most one; none at activity rate 0, exactly
+\* one at rate >= 1; a cancellation only of its own order that was active; otherwise one new limit order
+\* with its own trader id, a price tick_size * k with k in the tick range and a volume in the volume
+\* range, and only when it had no active order (never two live orders).
+PyRandomRel(a, tick, pre, calls) ==
+  LET own == {i \in 1..Len(pre) : pre[i].trader = a.i /\ pre[i].status = "Active"} IN
+  /\ Len(calls) <= 1
+  /\ a.rate_class = "zero" => calls = <<>>
+  /\ a.rate_class = "one" => Len(calls) = 1
+  /\ \A k \in 1..Len(calls) :
+       LET x == calls[k] IN
+       /\ x.k \in {"new", "cancel"}
+       /\ x.k = "cancel" => Len(x.ids) = 1 /\ (x.ids[1] + 1) \in own
+       /\ x.k = "new" =>
+            /\ Len(x.rows) = 1 /\ own = {}
+            /\ LET r == x.rows[1] IN
+               /\ r.tr = a.i /\ r.price # -1
+               /\ r.price % tick = 0
+               /\ r.price \div tick >= a.tick_lo /\ r.price \div tick < a.tick_hi
+               /\ r.vol >= a.vol_lo /\ r.vol < a.vol_hi
+
+\* loop structure of the runner: every member once, in order, then one step; n_steps times
+SimClause(e) ==
+  IF ~sm.on THEN ""
+  ELSE CASE e.op = "update_begin" -> IF e.agent = sm.ph /\ ~sm.inupd /\ sm.ph < Len(sm.agents) THEN "" ELSE "runner_updates_every_member_once_in_order"
+         [] e.op = "update_end" -> IF e.agent # sm.ph \/ ~sm.inupd THEN "runner_updates_every_member_once_in_order"
+                                   ELSE IF ~PyRandomRel(sm.agents[sm.ph + 1], cfg.tick, sm.pre, sm.calls) THEN "python_random_agent_relation"
+                                   ELSE ""
+         [] e.op = "submit" -> IF sm.inupd THEN "" ELSE "submission_outside_a_member_update"
+         [] e.op = "step" -> IF sm.ph = Len(sm.agents) /\ ~sm.inupd THEN "" ELSE "runner_steps_after_every_member_has_updated"
+         [] e.op = "sim_end" -> IF sm.ph = 0 /\ nsteps = sm.n_steps /\ e.returned_market_data /\ e.rounds = sm.n_steps THEN ""
+                                ELSE "runner_takes_exactly_n_steps_and_returns_the_market_data"
+         [] OTHER -> ""
+
+SimNext(e) ==
+  IF ~sm.on THEN sm
+  ELSE CASE e.op = "update_begin" -> [sm EXCEPT !.pre = orders, !.calls = <<>>, !.inupd = TRUE]
+         [] e.op = "update_end" -> [sm EXCEPT !.ph = @ + 1, !.inupd = FALSE]
+         [] e.op = "submit" -> [sm EXCEPT !.calls = Append(@, e)]
+         [] e.op = "step" -> [sm EXCEPT !.ph = 0]
+         [] OTHER -> sm
+
+SimEnd ==
+  /\ l <= Len(Rec) /\ Rec[l].op = "sim_end" /\ bad = ""
+  /\ bad' = (IF SimClause(Rec[l]) = "" THEN "" ELSE "CLAUSE:" \o SimClause(Rec[l]))
+  /\ l' = IF bad' = "" THEN l + 1 ELSE l
+  /\ UNCHANGED <<cfg, nsteps, orders, trades, recs, tvs, tmark, sm>>
+
 Reset ==
   /\ l <= Len(Rec) /\ Rec[l].op = "reset"
   /\ LET e == Rec[l]  c == [tick |-> e.tick, step |-> e.step, mode |-> e.mode] IN
      /\ bad' = FirstFalse(ViewClauses(e, c, <<>>, <<>>, 0, <<>>, <<>>, 0))
      /\ cfg' = c
   /\ nsteps' = 0 /\ orders' = <<>> /\ trades' = <<>> /\ recs' = <<>> /\ tvs' = <<>> /\ tmark' = 0
+  /\ sm' = IF "sim" \in DOMAIN Rec[l]
+           THEN [on |-> TRUE, ph |-> 0, pre |-> <<>>, calls |-> <<>>, agents |-> Rec[l].agents, n_steps |-> Rec[l].n_steps, inupd |-> FALSE]
+           ELSE NoSim
   /\ l' = IF bad' = "" THEN l + 1 ELSE l
 
 Call ==
-  /\ l <= Len(Rec) /\ Rec[l].op # "reset" /\ bad = ""
+  /\ l <= Len(Rec) /\ Rec[l].op \notin {"reset", "sim_end"} /\ bad = ""
   /\ LET e == Rec[l]
          no == Decode(e)  nt == DecodeT(e)
          isStep == e.op = "step"
@@ -145,15 +201,17 @@ Call ==
          vs2 == IF isStep THEN Append(tvs, TvFrom(nt, mk2)) ELSE tvs
          c1 == CASE e.op = "submit" -> FirstFalse(SubmitClauses(e, cfg, orders, trades))
                  [] e.op = "step"   -> FirstFalse(StepClauses(e, cfg, orders, trades, nsteps))
-                 [] OTHER -> (IF no = orders /\ nt = trades THEN "" ELSE "toggle_changes_nothing")
+                 [] OTHER -> (IF no = orders /\ nt = trades THEN "" ELSE "call_changes_nothing_observable")
          c2 == FirstFalse(ViewClauses(e, cfg, no, nt, k2, rs2, vs2, mk2))
+         c3 == SimClause(e)
      IN
-     /\ bad' = IF c1 # "" THEN "CLAUSE:" \o c1 ELSE IF c2 # "" THEN "CLAUSE:" \o c2 ELSE ""
+     /\ bad' = IF c3 # "" THEN "CLAUSE:" \o c3 ELSE IF c1 # "" THEN "CLAUSE:" \o c1 ELSE IF c2 # "" THEN "CLAUSE:" \o c2 ELSE ""
+     /\ sm' = SimNext(e)
      /\ nsteps' = k2 /\ orders' = no /\ trades' = nt /\ recs' = rs2 /\ tvs' = vs2 /\ tmark' = mk2
      /\ l' = IF bad' = "" THEN l + 1 ELSE l
   /\ UNCHANGED cfg
 
-TNext == Reset \/ Call
+TNext == Reset \/ Call \/ SimEnd
 TSpec == TInit /\ [][TNext]_tvars
 
 ASSUME TLCSet(1, 0)
@@ -166,7 +224,7 @@ Accepted ==
 Report ==
   bad # "" =>
     PrintT(<<"TRACE-REJECT", ToJson([at |-> l, why |-> bad, event |-> Rec[l],
-             spec_l1 |-> L1Array(L2From(Decode(Rec[l]), cfg.tick), TvFrom(DecodeT(Rec[l]), tmark)),
-             spec_l2 |-> L2Array(L2From(Decode(Rec[l]), cfg.tick), TvFrom(DecodeT(Rec[l]), tmark)),
-             nsteps |-> nsteps])>>)
+             spec_l1 |-> IF "orders" \in DOMAIN Rec[l] THEN L1Array(L2From(Decode(Rec[l]), cfg.tick), TvFrom(DecodeT(Rec[l]), tmark)) ELSE <<>>,
+             spec_l2 |-> IF "orders" \in DOMAIN Rec[l] THEN L2Array(L2From(Decode(Rec[l]), cfg.tick), TvFrom(DecodeT(Rec[l]), tmark)) ELSE <<>>,
+             nsteps |-> nsteps, member_expected |-> sm.ph])>>)
 =============================================================================
